@@ -171,7 +171,7 @@ CONTRACTS = {
     OP + "_apply_universal_effects": dict(prop="C03", assumed=True, params={"self": _OPR, "previous_state": _ST, "current_state": _ST}, returns="none",
                                           ensures=[], raises={"KeyError": "True", "ZeroDivisionError": "True"}, modifies=[]),
     OP + "apply": dict(
-        prop="C03", params={"self": _OPR, "previous_state": _ST, "allow_inapplicable_actions": "bool", "skip_validation": "bool"},
+        prop="C03", shards=4, params={"self": _OPR, "previous_state": _ST, "allow_inapplicable_actions": "bool", "skip_validation": "bool"},
         locals={"new_state": _ST}, returns=_ST,
         requires=["allocated(previous_state)", "allocated(self.grounded_effects)"] + [r.replace("self", "previous_state") for r in _STATE_WF],
         ensures=[
